@@ -497,3 +497,64 @@ spec fn gate_spec(s: &State, network: Network, sync_rule: bool) -> bool {
     &&& s.utxos.network == network
     &&& (sync_rule && s.disable_api_if_not_fully_synced != Flag::Disabled ==> synced_spec(s))
 }
+
+// ---------------------------------------------------------------------------------------
+// C02: get_blockchain_info describes the last block of the served branch
+// ---------------------------------------------------------------------------------------
+// [trusted:stand-in] ic_btc_interface::BlockchainInfo (same field names)
+struct BlockchainInfo { height: Height, block_hash: Vec<u8>, timestamp: u32, difficulty: u128, utxos_length: u64 }
+impl BlockHash {
+    // [trusted:stand-in] BlockHash::to_vec: the 32 bytes of the hash (here: an injective image of the stand-in value)
+    uninterp spec fn bytes_spec(&self) -> Seq<u8>;
+    #[verifier::external_body]
+    fn to_vec(&self) -> (r: Vec<u8>) ensures r@ == self.bytes_spec() { unimplemented!() }
+}
+impl UtxoSet {
+    // [trusted:stand-in] UtxoSet::utxos_len (stable map length)
+    #[verifier::external_body]
+    fn utxos_len(&self) -> (r: u64) ensures r < 0x4000_0000_0000_0000 { unimplemented!() }
+}
+// sum of the per-block UTXO deltas of the first n blocks of a chain
+spec fn delta_sum(c: Seq<CachedBlock>, n: int) -> int
+    decreases n,
+{
+    if n <= 0 || n > c.len() { 0 } else { delta_sum(c, n - 1) + c[n - 1].utxo_delta }
+}
+// [assumption, stated] the running UTXO count stays within i64
+spec fn deltas_in_range(base: int, c: Seq<CachedBlock>) -> bool {
+    forall|n: int| 0 <= n <= c.len() ==> -0x4000_0000_0000_0000 < #[trigger] (base + delta_sum(c, n)) < 0x4000_0000_0000_0000
+}
+
+//@extract file=canister/src/state.rs item="fn blockchain_info" props=C02
+//@ ret r
+//@ sigrewrite R3 "crate::types::BlockchainInfo" => "BlockchainInfo"
+//@ rewrite R3 "crate::types::BlockchainInfo" => "BlockchainInfo"
+//@ rewrite R4 "for block in main_chain\.into_chain\(\) \{" => "let vp_chain = main_chain.into_chain(); for block in it: vp_chain.iter() {"
+//@ spec
+//@| requires
+//@|     state_ranges(state),
+//@|     forall|b: int| deltas_in_range(b, state.unstable_blocks.tree.best_path()),
+//@| ensures
+//@|     ({ let tip = state.unstable_blocks.tree.best_path().last();
+//@|        // height, hash, timestamp and difficulty describe the last block of the served branch
+//@|        &&& r.height == state.utxos.next_height + state.unstable_blocks.tree.best_path().len() - 1
+//@|        &&& r.block_hash@ == tip.block_hash.bytes_spec()
+//@|        &&& r.timestamp == tip.header.time
+//@|        &&& r.difficulty == tip.difficulty }),
+//@ loop 1
+//@| invariant
+//@|     deref_seq(vp_chain@) =~= state.unstable_blocks.tree.best_path(),
+//@|     utxos_length == vp_base + delta_sum(state.unstable_blocks.tree.best_path(), it.index@),
+//@|     deltas_in_range(vp_base, state.unstable_blocks.tree.best_path()),
+//@ before "utxos_length += block.utxo_delta();"
+//@| proof {
+//@|     let c = state.unstable_blocks.tree.best_path();
+//@|     assert(*block == c[it.index@]);
+//@|     assert(delta_sum(c, it.index@ + 1) == delta_sum(c, it.index@) + c[it.index@].utxo_delta);
+//@|     assert(-0x4000_0000_0000_0000 < vp_base + delta_sum(c, it.index@ + 1) < 0x4000_0000_0000_0000);
+//@|     assert(-0x4000_0000_0000_0000 < vp_base + delta_sum(c, it.index@) < 0x4000_0000_0000_0000);
+//@| }
+//@ before "let vp_chain = main_chain.into_chain();"
+//@| let ghost vp_base = utxos_length as int;
+//@| proof { state.unstable_blocks.tree.lemma_best_key_pos(); state.unstable_blocks.tree.lemma_best_path_len(); }
+//@end
